@@ -46,9 +46,11 @@ CHECKS = {
     'C03': dict(
         text=("For EVERY input sequence (hence a loss at every byte offset of every session): C03_all_resolved (once lost, fired Deferreds = "
               "submitted commands, each once, in order, nothing pending), C03_no_write_after_loss, C03_notified_once (every when_disconnected "
-              "request notified exactly once), C03_submit_after_loss. Correspondence: sessions with a loss at random points plus systematic "
+              "request notified exactly once), C03_submit_after_loss; for the deprecated on_disconnect Deferred C03_legacy_at_loss (every chained callback runs "
+              "once, in order, with the protocol after a clean close and a Failure otherwise), C03_reason_irrelevant (the close reason changes nothing "
+              "else), C03_legacy_after_loss. Correspondence: sessions with a loss at random points plus systematic "
               "cuts at byte offsets, post-loss submissions and notification requests against the real protocol."),
-        note=CTL_NOTE + "The close reason is not part of the model (clean and unclean are both exercised in the correspondence run).",
+        note=CTL_NOTE + "The close reason is an input of the model (`reason`), read only by the on_disconnect branch of connectionLost.",
         technique="Lean 4: invariants by induction over all input sequences of the control-connection model; differential correspondence",
         ref='§4 C03'),
     'C13': dict(
